@@ -799,7 +799,7 @@ const CLEAN: &[u8] = b"abcXYZ019-_@";
 
 /// a name / email as git's formatter leaves it (no crud at the ends, no `<>\n`)
 fn gen_clean_token(r: &mut Rng, allow_empty: bool) -> Vec<u8> {
-    let mut v = match r.below(6) {
+    let mut v = match r.below(8) {
         0 => "Jörg Müller".as_bytes().to_vec(),
         1 => "名前 太郎".as_bytes().to_vec(),
         2 => {
@@ -810,6 +810,13 @@ fn gen_clean_token(r: &mut Rng, allow_empty: bool) -> Vec<u8> {
             v
         }
         3 => vec![b'a', 0xff, 0xfe, b'b'],
+        4 => {
+            // CR, VT, FF, TAB, DEL, high bytes inside (the ends stay clean: git strips crud there)
+            let mut v = r.over(ODD, 6);
+            v.insert(0, b'x');
+            v.push(b'y');
+            v
+        }
         _ => r.over(CLEAN, 12),
     };
     if v.is_empty() && !allow_empty {
@@ -850,12 +857,30 @@ fn gen_ident(r: &mut Rng, allow_empty_name: bool) -> Ident {
     }
 }
 
+/// bytes that text-oriented helpers (`lines()`, `trim()`, UTF-8 conversions) treat specially; LF
+/// and NUL are handled separately by the callers
+const ODD: &[u8] = b"\r\r\t\x0b\x0c\x01\x7f\x80\x85\xa0\xc3\xe2\xff a";
+
 fn gen_line(r: &mut Rng, allow_empty: bool) -> Vec<u8> {
-    let mut v = match r.below(6) {
+    let mut v = match r.below(10) {
         0 => vec![],
         1 => b"iQEzBAABCAAdFiEE".to_vec(),
         2 => r.over(b" ab\t-", 8),
         3 => "ünï".as_bytes().to_vec(),
+        // a line of a CRLF-emitting signer: the CR belongs to the value
+        4 => {
+            let mut v = r.over(b"abcdefgh0123456789+/=", 20);
+            v.push(b'\r');
+            v
+        }
+        5 => b"\r".to_vec(),
+        6 => {
+            let mut v = r.over(b"ab", 3);
+            v.push(b'\r');
+            v.extend_from_slice(&r.over(b"cd\r", 3));
+            v
+        }
+        7 => r.over(ODD, 10),
         _ => r.over(b"abcdefgh0123456789+/= -", 40),
     };
     if v.is_empty() && !allow_empty {
@@ -880,9 +905,19 @@ fn gen_header(r: &mut Rng) -> Header {
             if r.chance(1, 4) {
                 more.push(vec![]);
             }
+            let mut first = b"-----BEGIN PGP SIGNATURE-----".to_vec();
+            if r.chance(1, 3) {
+                // the whole armour with CRLF line ends (every line keeps its CR, the empty one is a lone CR)
+                first.push(b'\r');
+                for l in more.iter_mut() {
+                    if !l.ends_with(b"\r") {
+                        l.push(b'\r');
+                    }
+                }
+            }
             Header {
                 name: if r.chance(1, 5) { b"gpgsig-sha256".to_vec() } else { b"gpgsig".to_vec() },
-                first: b"-----BEGIN PGP SIGNATURE-----".to_vec(),
+                first,
                 more,
             }
         }
@@ -925,7 +960,7 @@ fn gen_header(r: &mut Rng) -> Header {
 }
 
 fn gen_message(r: &mut Rng, nul_ok: bool) -> Vec<u8> {
-    let mut v = match r.below(8) {
+    let mut v = match r.below(11) {
         0 => vec![],
         1 => b"subject\n\nbody\n".to_vec(),
         2 => b"no trailing newline".to_vec(),
@@ -936,7 +971,16 @@ fn gen_message(r: &mut Rng, nul_ok: bool) -> Vec<u8> {
         }
         5 => b"\n\n\nleading blank lines\n\n".to_vec(),
         6 => b"looks like a header\nparent 0123\n \n".to_vec(),
-        _ => r.over(b"ab c\n\n-:\xf0 ", 60),
+        7 => b"subject\r\n\r\nbody with CRLF\r\nlast line\r".to_vec(),
+        8 => {
+            let mut v = r.over(ODD, 30);
+            for _ in 0..r.usize(4) {
+                let i = r.usize(v.len() + 1);
+                v.insert(i, b'\n');
+            }
+            v
+        }
+        _ => r.over(b"ab c\n\n-:\xf0 \r", 60),
     };
     if !nul_ok {
         v.retain(|b| *b != 0);
@@ -1256,6 +1300,17 @@ fn gen_tag_fields(r: &mut Rng, g: &Git) -> TagF {
                 s.push(b'\n');
             }
         }
+        if r.chance(1, 4) {
+            // CRLF armour
+            let mut t = Vec::new();
+            for b in s {
+                if b == b'\n' {
+                    t.push(b'\r');
+                }
+                t.push(b);
+            }
+            s = t;
+        }
         Some(s)
     } else {
         None
@@ -1346,9 +1401,10 @@ fn gen_tree_fields(r: &mut Rng, g: &Git) -> Vec<EntryF> {
             5 => *r.pick(&[0o40755u32, 0, 0o100000, 0o140000, 0o177777, 0o10644, 0o200000 | 0o100644]),
             _ => 0o100644,
         };
-        let mut name = match r.below(6) {
+        let mut name = match r.below(7) {
             0 => "ünï ✓".as_bytes().to_vec(),
             1 => r.over(b"ab \t\n\"\\", 5),
+            3 => r.over(ODD, 5),
             2 => vec![b'a', 0xff],
             _ => r.over(b"ab.-0", 6),
         };
@@ -1486,12 +1542,20 @@ const SIG_FORMS: &[&[u8]] = &[
     b"A <a> > 1 +0000",
     b"A <a \x0c> 1 +0000",
     b"A <a \x0b> 1 +0000",
+    b"A <a\r> 1 +0000",
+    b"A <\ra> 1 +0000",
+    b"A\r <a> 1 +0000",
+    b"\rA <a> 1 +0000",
+    b"A <a> 1 +0000\r",
+    b"A <a>\r1 +0000",
+    b"A <a> 1\r+0000",
+    b"A \x80\xff <\xc3> 1 +0000",
     b"",
 ];
 
 fn mutate(r: &mut Rng, b: &[u8], kind: &str) -> Vec<u8> {
     let mut v = b.to_vec();
-    let alphabet: &[u8] = b" \n<>+-09\t\0:a7";
+    let alphabet: &[u8] = b" \n<>+-09\t\0:a7\r\r\x0b\x0c\x80\xff";
     match r.below(14) {
         0 if !v.is_empty() => {
             let i = r.usize(v.len());
@@ -1641,6 +1705,35 @@ fn corpus(rep: &mut Report, g: &mut Git) {
         message: None,
     };
     do_commit(rep, g, &c, false);
+    // CR and other bytes that line/trim helpers treat specially, everywhere the grammar takes any byte
+    let crlf = CommitF {
+        tree: g.trees[0].clone(),
+        parents: vec![],
+        author: Ident { name: b"A\rB\x0bC".to_vec(), email: b"a\r@\x0cb".to_vec(), seconds: 1, minus: false, h: 0, m: 0 },
+        committer: Ident { name: b"C\xff".to_vec(), email: b"\x80".to_vec(), seconds: 2, minus: true, h: 1, m: 30 },
+        encoding: Some(b"latin\r1".to_vec()),
+        extra: vec![
+            Header {
+                name: b"gpgsig".to_vec(),
+                first: b"-----BEGIN PGP SIGNATURE-----\r".to_vec(),
+                more: vec![b"\r".to_vec(), b"abc\r".to_vec(), b"-----END PGP SIGNATURE-----\r".to_vec()],
+            },
+            Header { name: b"x-single".to_vec(), first: b"a\rb\r".to_vec(), more: vec![] },
+            Header { name: b"mergetag".to_vec(), first: b"object 0123\r".to_vec(), more: vec![b"\r\r".to_vec(), vec![], b"\x0b\x0c\t".to_vec()] },
+        ],
+        message: Some(b"subject\r\n\r\nbody\r\nend\r".to_vec()),
+    };
+    do_commit(rep, g, &crlf, false);
+    let t = TagF {
+        target: h.clone(),
+        kind: "commit",
+        name: b"v3".to_vec(),
+        tagger: Some(Ident { name: b"T\rU".to_vec(), email: b"t\r@e".to_vec(), seconds: 1, minus: false, h: 0, m: 0 }),
+        message: Some(b"msg\r\nline\r".to_vec()),
+        sig_tail: Some(b"\r\n\r\nabc\r\n-----END PGP SIGNATURE-----\r\n".to_vec()),
+    };
+    do_tag(rep, g, &t, true);
+    do_tag(rep, g, &t, false);
     // ident lines only a verbatim pass-through (mktag / hash-object) can create: accepted by git's fsck,
     // normalised by the decoder, hence not re-encoded verbatim; reported as outside-domain
     for (email, hh, mm) in [(&b" t@e "[..], 0u32, 0u32), (b"t@e", 1, 99), (b"t@e", 99, 99)] {
